@@ -617,6 +617,19 @@ pub fn compile_on_schedule(project: Project, cfg: &Config, threads: usize, yield
                 }
             }
         }
+        // A project with error diagnostics has no Sierra: its diagnostics (computed on this
+        // schedule) are the whole output.
+        let (d0, has_errors) = comp::diagnostics(&db, &inputs);
+        if has_errors {
+            return Ok(Outputs {
+                diagnostics: d0,
+                sierra_names: String::new(),
+                sierra_canonical: String::new(),
+                casm: String::new(),
+                classes: String::new(),
+                fingerprint: fnv(format!("{threads}|{yield_seed}|{prefix_seed}|{order}").as_bytes()),
+            });
+        }
         let (diagnostics, raw, named) = if order {
             let (d, _) = comp::diagnostics(&db, &inputs);
             let raw = compile_raw(&db, &inputs, &ids)?;
